@@ -763,10 +763,18 @@ class Scores:
             achieved and the EER value itself.
         """
         # We treat the case of perfect separation separately
+        def _separating_threshold(lower, upper):
+            threshold = (lower + upper) / 2
+            if not lower < threshold < upper:
+                # For adjacent floating point numbers the midpoint is one of the two;
+                # pick the one that leaves the sample at the threshold in its own class.
+                threshold = upper if self.equal_class == self.score_class else lower
+            return threshold
+
         if self.pos[0] > self.neg[-1] and self.score_class == BinaryLabel.pos:
-            return (self.pos[0] + self.neg[-1]) / 2, 0.0
+            return _separating_threshold(self.neg[-1], self.pos[0]), 0.0
         if self.pos[-1] < self.neg[0] and self.score_class == BinaryLabel.neg:
-            return (self.pos[-1] + self.neg[0]) / 2, 0.0
+            return _separating_threshold(self.pos[-1], self.neg[0]), 0.0
 
         sign = -(self.threshold_at_fpr(0.0) - self.threshold_at_fnr(0.0))
 
